@@ -207,6 +207,13 @@ def must_reject(c):
 
 
 def evaluate(c):
+    if c['t'] == 'table':
+        with env.in_zone(env.zone_of(sorted(c.items()))):
+            return _evaluate(c)
+    return _evaluate(c)
+
+
+def _evaluate(c):
     env.Clock.set(env.BASE)
     if c['t'] == 'table':
         srv = server(c['want'], c['slack'])
@@ -434,7 +441,7 @@ def run(ctx):
             'valid_requests_rejected_noted': valid_rejected, 'distinct_outcomes': len(hist), 'outcome_histogram': hist,
             'rule': '(a) %s product: 8 request types x their bindings x signature state (none, valid, invalid, non-metadata key, other SP\'s key) x want_authn_requests_signed (absent, False, True) x Destination (absent, own, own endpoint of another service / binding, foreign) x IssueInstant offset (0, +-(1 day -5 s), +-(1 day +5 s), +-400 d; with allowance 0 and 60) x Version; schema damage below mandatory children; (b) every depth-1 tree edit%s of validly signed AuthnRequest/LogoutRequest/AttributeQuery (C01 alphabet), text/attr/delete edits also on a receiver that has just accepted the genuine request; (b2) the complete signature-wrapping grammar of C01 around a validly signed AuthnRequest (signed requests wanted / not wanted), LogoutRequest and AttributeQuery: modified twin with fresh or same ID x place of the genuine request (absent, Extensions, Issuer, Signature/Object, last child) x genuine keeps its signature x up to two signature copies in 6 places each referencing the genuine or the twin; (b3) every sequence of 2 (thorough: 3) signed requests from two SPs, each signed with its own, the key of the other SP or a foreign key, on one fresh receiver; IssueInstant also written in other zones (+13:00, +14:00, -11:00, -12:00, +01:00) and with fractions; (c) %s truncation of the transport encoding + garbled encodings; all through the real Server.parse_* entry points' % ('complete' if ctx.thorough else 'pairwise-around-a-base-cell (complete for AuthnRequest/POST pairs)', ' + depth-2 signature relocation family' if ctx.thorough else '', 'every' if ctx.thorough else 'every 7th + the last 40'),
         },
-        'assumptions': ['every explored (service, binding) has a configured endpoint (the destination test is skipped otherwise and the statement does not cover that case)',
+        'assumptions': ['table cells / federations are evaluated in a process time zone (UTC, UTC+5, UTC-5) chosen as a function of their coordinates: verdicts must not depend on it', 'every explored (service, binding) has a configured endpoint (the destination test is skipped otherwise and the statement does not cover that case)',
                         'one-directional oracle; xmlsec1 model at the seam'],
     }
 
